@@ -56,6 +56,40 @@ PROPS = {
     ),
 }
 
+AVL_LABELS = ["rotate_left", "rotate_right", "rotate_left_right", "rotate_right_left", "delete_leaf", "delete_one_child", "delete_two_children_left_victim",
+              "delete_two_children_right_victim", "duplicate_insert", "multi_level_rebalance", "tree_emptied", "next_prev_probe", "delete_root", "height_ge_5"]
+
+
+def _avl_parts(height, parts, sample=0):
+    return [["mode=exh", "height=%d" % height, "part=%d" % i, "parts=%d" % parts] + (["sample=%d" % sample] if sample else []) for i in range(parts)]
+
+
+PROPS["C16"] = dict(
+    level="exploration", labels=AVL_LABELS, engine="avl",
+    campaigns=[dict(target="avl", quick=_avl_parts(4, 4) + _avl_parts(5, 12, sample=6000), thorough=_avl_parts(5, 16),
+                    exhaustive_quick="every AVL shape of height <= 4 (1+1+3+15+315 shapes) x every insert gap, every duplicate insert and every node deletion; height 5 sampled",
+                    exhaustive_thorough="every AVL shape of height <= 5 (108675 shapes of height 5) x every insert gap, every duplicate insert and every node deletion"),
+               ("avl", [], 6000, 100000), ("avl", ["big=1"], 600, 10000)],
+    rule="(a) enumeration: every AVL shape up to the stated height, built through the public node fields with keys 2,4,6..; per shape one case per insert position (odd keys), per duplicate insert (even keys) and per deletable node; every (shape, operation) pair is distinct by construction and counted once; (b) random mixed insert/delete/next/prev histories over small key ranges (8..511, so duplicates are frequent), nodes individually malloc'ed and freed at delete; non-trivial history = contains all 4 rotation kinds, two-children deletions with the victim taken from either side, and a duplicate insert; distinct = hash of the operation sequence. After EVERY operation: full walk (BST order, parent links, exact recorded heights, |balance|<=1, node set = model), forward and backward traversal = model order, failed duplicate insert leaves the tree bit-identical",
+    assumptions=["comparator is a total order on integer keys", "exhaustive only up to the stated height; beyond it random histories (heights up to ~10)"],
+    level_text="bounded-exhaustive enumeration of all AVL shapes up to height 4 (quick) / 5 (thorough) crossed with every insert position, duplicate and deletion, plus random long histories, each operation followed by a complete structural comparison with a reference ordered set",
+    level_note="trusted: the reference model (sorted presence array) and the structural walk in harness/t_avl.c; ASan for freed nodes. Exhaustive only within the stated height; exploration beyond.",
+    technique="property-based testing: bounded-exhaustive shape enumeration + seeded random operation histories against a reference ordered-set model, full invariant walk after every step; choice-sequence shrinking",
+    design_ref="DESIGN.md section 3 (C16)",
+)
+TIMERS_LABELS = ["cross_128_up", "cross_128_down", "cross_16384_up", "cross_16384_down", "interior_removal", "remove_earliest", "remove_last_registered",
+                 "equal_keys", "unregister_of_timer_in_expired_batch", "bulk_register", "bulk_unregister", "register_from_handler", "past_expiry",
+                 "empty_then_refill", "method_epoll_timerfd", "method_epoll", "method_ppoll", "method_poll", "far_future", "extreme_expiry_value"]
+PROPS["C05"] = dict(
+    level="exploration", labels=TIMERS_LABELS, engine="timers",
+    campaigns=[("timers", [], 40000, 800000), ("timers", ["large=1"], 2500, 50000)],
+    rule="cases = histories of iv_timer_register / iv_timer_unregister / bulk register (ascending, descending, all-equal, scattered, few distinct keys) / bulk unregister (newest, oldest, always-the-earliest, scattered interior) / burn, executed at setup and from timer handlers, populations steered across 127/128/129 and (large profile) 16383/16384/16385 in both directions, expiries incl. past, equal, far-future and extreme values, 4 poll methods, virtual clock; reference model = binary heap with lazy deletion + per-timer record; oracles: order rule at every handler entry, never early, a timer is due at <= 1 wait entry before it fires (independence: depends only on its own expiry), blocking deadline <= earliest model expiry, earliest timer not left due over two waits, iv_fatal/sanitizer = violation; non-trivial = case with >=1 removal of a timer that is neither the earliest nor the last registered while >=3 are registered AND a population boundary crossing; distinct = hash of the executed operation sequence",
+    assumptions=["virtual clock as in C04", "every timer struct individually malloc'ed and freed at unregister / after firing (ASan)"],
+    level_text="exploration of generated timer histories at populations from 0 to >33000 against a reference multiset model under a virtual clock; every handler entry and every blocking point is checked",
+    level_note="trusted: the reference heap and per-timer bookkeeping in harness/t_timers.c, the virtual kernel layer, ASan/UBSan. No violation found in the explored histories is not absence.",
+    technique="model-based property testing: seeded generated register/unregister histories against a reference multiset model under a virtual clock; choice-sequence shrinking",
+    design_ref="DESIGN.md section 3 (C05)",
+)
 
 ENGINES = [
     dict(name="vfz", path="harness/vfz.c", serves_properties=["C01", "C02", "C03", "C04", "C06", "C07"],
@@ -65,6 +99,8 @@ ENGINES = [
     dict(name="loop", path="harness/t_loop.c", serves_properties=["C01", "C02", "C03", "C04", "C06", "C07"],
          kind_free_text="engine A: generated single-threaded loop programs with shadow model and per-property oracles"),
 ]
+ENGINES.append(dict(name="avl", path="harness/t_avl.c", serves_properties=["C16"], kind_free_text="AVL tree: bounded-exhaustive shape enumeration and random histories against a reference ordered set"))
+ENGINES.append(dict(name="timers", path="harness/t_timers.c", serves_properties=["C05"], kind_free_text="timer heap histories at large populations against a reference multiset model, virtual clock"))
 NOT_APPLICABLE = {}
 
 _COMMON_NOTE = ("trusted: the harness' shadow model and oracles (harness/t_loop.c), the link-time interposition layer (harness/vk.c), the running "
@@ -115,7 +151,8 @@ def confirm(exe, casefile, n=3):
 
 def replay(prop, spec, path):
     params, data = vlib.read_case(path)
-    target = params.get("target", spec["campaigns"][0][0])
+    c0 = spec["campaigns"][0]
+    target = params.get("target", c0["target"] if isinstance(c0, dict) else c0[0])
     exe = vlib.build(target)
     r = confirm(exe, path)
     if not r:
@@ -143,9 +180,11 @@ def run_check(prop, spec, tier, seed, scale, write_evidence=True):
     labels = [0] * 64; hashes = set(); samples = []; counters = [0] * 16
     seen_tags = set()
     exes = {}
+    enum_nontrivial = [0]; enum_samples = []
     for c in spec["campaigns"]:
-        if c[0] not in exes:
-            exes[c[0]] = vlib.build(c[0])
+        t = c["target"] if isinstance(c, dict) else c[0]
+        if t not in exes:
+            exes[t] = vlib.build(t)
 
     def handle_failure(exe, casefile, origin):
         nonlocal nviol, nknown
@@ -174,7 +213,8 @@ def run_check(prop, spec, tier, seed, scale, write_evidence=True):
     ncorp = 0
     for cf_ in _corpus(prop):
         params, _ = vlib.read_case(cf_)
-        tgt = params.get("target", spec["campaigns"][0][0])
+        c0 = spec["campaigns"][0]
+        tgt = params.get("target", c0["target"] if isinstance(c0, dict) else c0[0])
         if tgt not in exes:
             exes[tgt] = vlib.build(tgt)
         r = vlib.run_case(exes[tgt], cf_, ["prop=" + prop])
@@ -188,7 +228,34 @@ def run_check(prop, spec, tier, seed, scale, write_evidence=True):
             handle_failure(exes[tgt], cf_, "corpus:" + os.path.basename(cf_))
 
     # 2. generated campaigns
-    for ci, (target, params, nq, nt_) in enumerate(spec["campaigns"]):
+    exhaustive_note = []
+    for ci, camp in enumerate(spec["campaigns"]):
+        if isinstance(camp, dict):
+            # enumeration campaign: a list of parameter sets, each one in-process run that reports counters
+            psets = camp["quick"] if tier == "quick" else camp["thorough"]
+            exe = exes[camp["target"]]
+            res = vlib.run_singles(exe, [["prop=" + prop] + ps for ps in psets], outdir)
+            for ps, r in zip(psets, res):
+                if r["v"] == "ok":
+                    tot["ok"] += 1
+                    tot["evals"] += r["c"][0]
+                    enum_nontrivial[0] += r["c"][0]
+                    for i in range(64):
+                        if r["labels"] >> i & 1:
+                            labels[i] += 1
+                    if r.get("log"):
+                        enum_samples.append(dict(params=ps, trace=r["log"].splitlines()[:10]))
+                elif r["v"] == "inc":
+                    tot["inc"] += 1; tot["evals"] += 1
+                else:
+                    tot["evals"] += 1
+                    cfp = os.path.join(outdir, "enum%d_%d.case" % (ci, len(seen_tags)))
+                    vlib.write_case(cfp, dict([("target", camp["target"]), ("prop", prop)] + [tuple(x.split("=", 1)) for x in ps]), b"")
+                    handle_failure(exe, cfp, "enumeration %s" % " ".join(ps))
+            if camp.get("exhaustive_" + tier):
+                exhaustive_note.append(camp["exhaustive_" + tier])
+            continue
+        target, params, nq, nt_ = camp
         n = int((nq if tier == "quick" else nt_) * scale)
         if n <= 0:
             continue
@@ -217,7 +284,8 @@ def run_check(prop, spec, tier, seed, scale, write_evidence=True):
     names = spec.get("labels", [])
     labcounts = {names[i] if i < len(names) else "label%d" % i: labels[i] for i in range(64) if labels[i]}
     ev = dict(property_id=prop, tier=tier, seed=seed, level=spec["level"],
-              coverage=dict(evaluations=tot["evals"], distinct_nontrivial=len(hashes), rule=spec["rule"], samples=sample_out,
+              coverage=dict(evaluations=tot["evals"], distinct_nontrivial=len(hashes) + enum_nontrivial[0], rule=spec["rule"], samples=sample_out + enum_samples[:3],
+                            exhaustive=bool(exhaustive_note), exhaustive_scope="; ".join(exhaustive_note),
                             conclusive=tot["ok"] + tot["viol"] + tot["crash"], inconclusive=tot["inc"], corpus_cases=ncorp,
                             label_counts=labcounts, counters=counters, violations_reported=nviol, known_findings_reported=nknown),
               assumptions=spec.get("assumptions", []), wall_s=round(wall, 1), violations=nviol)
@@ -228,14 +296,14 @@ def run_check(prop, spec, tier, seed, scale, write_evidence=True):
     for l in lines:
         print(l)
     print("%s %s: %d cases (%d ok, %d inconclusive), %d distinct non-trivial, %d violation(s), %d known, %.1fs" %
-          (prop, tier, tot["evals"], tot["ok"], tot["inc"], len(hashes), nviol, nknown, wall))
+          (prop, tier, tot["evals"], tot["ok"], tot["inc"], len(hashes) + enum_nontrivial[0], nviol, nknown, wall))
     if nviol:
         return 1
     need = spec.get("min_conclusive", 200 if tier == "quick" else 1000) * min(1.0, scale)
     if tot["ok"] < need:
         print("CHECK BROKEN: only %d conclusive cases (need %d)" % (tot["ok"], need))
         return 2
-    if len(hashes) < 2:
+    if len(hashes) + enum_nontrivial[0] < 2:
         print("CHECK BROKEN: generator produced %d non-trivial cases" % len(hashes))
         return 2
     return 0
